@@ -5950,6 +5950,8 @@ class Path(Shape, MutableSequence):
         if isinstance(other, str):
             self.parse(other)
         elif isinstance(other, (Path, Subpath)):
+            if isinstance(other, Path) and not other.transform.is_identity():
+                other = abs(other)  # The geometry the other path draws, as other.d() gives for a shape.
             self.extend(map(copy, list(other)))
         elif isinstance(other, Shape):
             self.parse(other.d())
@@ -5971,7 +5973,8 @@ class Path(Shape, MutableSequence):
     def __radd__(self, other):
         if isinstance(other, str):
             path = Path(other)
-            path.extend(map(copy, self._segments))
+            source = self if self.transform.is_identity() else abs(self)
+            path.extend(map(copy, source._segments))
             return path
         elif isinstance(other, PathSegment):
             path = copy(self)
